@@ -338,9 +338,11 @@ func (blockchain *Blockchain) BeginBlock(req abciTypes.RequestBeginBlock) abciTy
 		var address types.TmAddress
 		copy(address[:], byzVal.Validator.Address)
 
-		// skip already offline candidates to prevent double punishing
+		// skip already offline candidates to prevent double punishing; a validator that was
+		// already punished in this block (second evidence entry) is marked to drop
 		candidate := blockchain.stateDeliver.Candidates.GetCandidateByTendermintAddress(address)
-		if candidate == nil || candidate.Status == candidates.CandidateStatusOffline || blockchain.stateDeliver.Validators.GetByTmAddress(address) == nil {
+		validator := blockchain.stateDeliver.Validators.GetByTmAddress(address)
+		if candidate == nil || candidate.Status == candidates.CandidateStatusOffline || validator == nil || validator.IsToDrop() {
 			continue
 		}
 
